@@ -289,13 +289,13 @@ Proof.
 Qed.
 
 (* ---------- C01_vocabulary ---------- *)
-Theorem vocabulary_partial num e m sd :
+Theorem vocabulary_faithful num e m sd :
   parse_domain num e = Ok m -> read_domain num e = Some sd ->
-  sections_once e -> constants_all_typed e ->
+  sections_once e ->
   ~ In ":private" (map fst (sd_preds sd)) ->
   model_vocabulary m = spec_vocabulary sd.
 Proof.
-  intros Hp Hr Honce Hconst Hpriv.
+  intros Hp Hr Honce Hpriv.
   destruct (parse_domain_shape num e m Hp) as (sections & -> & Hfold).
   rewrite read_domain_unfold in Hr.
   destruct (first_or (section_bodies ":types" sections) read_types) as [t|] eqn:Et; [|discriminate].
@@ -319,9 +319,7 @@ Proof.
     destruct (sec_inv_once _ _ _ _ Oc Ic) as [[Hb ->]|(b & Hb & tt & Hv)]; rewrite Hb in Ec; simpl in Ec.
     + injection Ec as <-. reflexivity.
     + unfold read_typed in Ec. destruct (atom_names b) as [names|] eqn:En; [|discriminate].
-      pose proof (parse_constants_spec tt b _ names c Hv En Ec) as Hs.
-      cbn [constants_all_typed] in Hconst. rewrite (Hconst b names) in Hs; [exact Hs| |exact En].
-      rewrite Hb. left. reflexivity.
+      exact (parse_constants_spec tt b _ names c Hv En Ec).
   - (* predicates *)
     destruct (sec_inv_once _ _ _ _ Op Ip) as [[Hb ->]|(b & Hb & tt & Hv)]; rewrite Hb in Epd; simpl in Epd.
     + injection Epd as <-. reflexivity.
@@ -367,7 +365,7 @@ Theorem faithful_partial num e m sd :
   exists parsed,
     d_actions m = dict_of (map name_pair parsed) /\
     Forall2 (fun ma sa => ma_name ma = lower_string (a_name sa) /\
-                          (action_ok (vo_funcs (spec_vocabulary sd)) sa = true -> action_faithful ma sa))
+                          (action_ok sa = true -> action_faithful ma sa))
             parsed (sd_actions sd).
 Proof.
   intros Hp Hr Honce Hpk Hfk Hpriv.
@@ -386,7 +384,6 @@ Proof.
   inversion Honce as [|k1 r1 Ot Honce1]; subst. inversion Honce1 as [|k2 r2 Oc Honce2]; subst.
   inversion Honce2 as [|k3 r3 Op Honce3]; subst. inversion Honce3 as [|k4 r4 Of _]; subst.
   exists parsed. split; [exact Hact|].
-  unfold spec_vocabulary. cbn [vo_funcs sd_funcs].
   clear Hact. revert acts Ea. induction Hf2 as [|body a bodies parsed' (d0 & [Hcp Hcf] & Hpa) _ IH]; intros acts Ea.
   - simpl in Ea. injection Ea as <-. constructor.
   - cbn [map] in Ea. rewrite all_some_cons in Ea.
@@ -402,8 +399,6 @@ Proof.
     assert (Hpreds : d_preds d0 = [] \/ d_preds d0 = dict_of (map decl_row p)).
     { destruct (sec_sub_once _ _ _ _ Op Hcp) as [H|(b & Hb & tt & Hv)]; [left; exact H|right].
       rewrite Hb in Epd. simpl in Epd. apply (parse_predicates_spec tt b [] _ p Hv Epd Hpriv). }
-    assert (HF : forall g sg, dget (d_funcs d0) g = Some sg -> lookup g (dict_of (map decl_row f)) = Some sg).
-    { intros g sg Hg. rewrite lookup_dget. destruct Hfuncs as [H|H]; rewrite H in Hg; [discriminate|exact Hg]. }
     assert (HK : forall g sg, dget (d_funcs d0) g = Some sg -> str_in g keywords = false).
     { intros g sg Hg. destruct Hfuncs as [H|H]; rewrite H in Hg; [discriminate|].
       apply dict_of_in in Hg. apply (names_not_keywords_in _ _ Hfk).
@@ -414,7 +409,7 @@ Proof.
       apply dmem_dict_of_in in Hq. apply (names_not_keywords_in _ _ Hpk).
       rewrite map_map in Hq. exact Hq. }
     exact (parse_action_faithful num (d_types d0) (d_consts d0) (d_preds d0) (d_funcs d0)
-             (dict_of (map decl_row f)) HF HK HP body a sa Hpa Esa Hok).
+             HK HP body a sa Hpa Esa Hok).
 Qed.
 
 (* every action of the parsed domain comes from one action block of the text *)
@@ -426,7 +421,7 @@ Corollary faithful_action num e m sd n ma :
   ~ In ":private" (map fst (sd_preds sd)) ->
   dget (d_actions m) n = Some ma ->
   exists sa, In sa (sd_actions sd) /\ n = lower_string (a_name sa) /\
-             (action_ok (vo_funcs (spec_vocabulary sd)) sa = true -> action_faithful ma sa).
+             (action_ok sa = true -> action_faithful ma sa).
 Proof.
   intros Hp Hr Honce Hpk Hfk Hpriv Hget.
   destruct (faithful_partial num e m sd Hp Hr Honce Hpk Hfk Hpriv) as (parsed & Hact & Hf2).
@@ -464,7 +459,7 @@ Lemma faithful_action_ok num e m sd n ma :
   parse_domain num e = Ok m -> read_domain num e = Some sd -> sections_once e -> names_ok sd ->
   dget (d_actions m) n = Some ma ->
   exists sa, In sa (sd_actions sd) /\ n = lower_string (a_name sa) /\
-             (action_ok (vo_funcs (spec_vocabulary sd)) sa = true -> action_faithful ma sa).
+             (action_ok sa = true -> action_faithful ma sa).
 Proof.
   intros Hp Hr Ho (Hpk & Hfk & Hpriv) Hget. exact (faithful_action num e m sd n ma Hp Hr Ho Hpk Hfk Hpriv Hget).
 Qed.
@@ -474,7 +469,7 @@ Lemma faithful_all_ok num e m sd :
   exists parsed,
     d_actions m = dict_of (map name_pair parsed) /\
     Forall2 (fun ma sa => ma_name ma = lower_string (a_name sa) /\
-                          (action_ok (vo_funcs (spec_vocabulary sd)) sa = true -> action_faithful ma sa))
+                          (action_ok sa = true -> action_faithful ma sa))
             parsed (sd_actions sd).
 Proof.
   intros Hp Hr Ho (Hpk & Hfk & Hpriv). exact (faithful_partial num e m sd Hp Hr Ho Hpk Hfk Hpriv).
